@@ -9,7 +9,7 @@ CHECKS = {
     "C01": ("exploration",
             "generated-scenario search in a wire lab (real worker thread, scripted raw-socket peers) with an exact content oracle",
             "Each scenario drives one keep-alive client connection through a live worker's HTTP listener to an HTTP/1.1 mock backend: 1..4 POST requests with request and response bodies of boundary-biased sizes (around buffer_size 16393, 16384, 32768, 65535/65536, up to 256 KiB; thorough 6 MiB) of keyed content, framed Content-Length / chunked with generated chunk sizes / close-delimited, under four generated I/O scripts (dribbles, token splits, pauses, read stalls, bounded socket buffers). Every body must arrive byte-identical and every message end cleanly; each request reaches the backend exactly once. 16 OS-process labs; a failure is re-run on a fresh worker and reported only if it reproduces. A second sub-check (h2pairs) drives one HTTP/2-over-TLS client connection (own frame codec, HPACK via loona-hpack, rustls) with 1..8 concurrent POST streams to an HTTP/1.1 or an h2c mock backend with generated DATA frame sizes and padding on both HTTP/2 legs: exact bodies per stream, END_STREAM seen, no cross-stream mix-up, plus the HTTP/2 limits ledger.",
-            "The HTTP/1.1 -> h2c pair and trailers are not exercised; kernel segmentation and epoll wake-up order are shaped, not owned; splice off; three HTTP/2 shapes are known findings (frame storm, head-of-line stall when both peers withhold credit, streams attached before the backend's SETTINGS) excluded by construction with strict reproducers under C14.",
+            "A third sub-check (h1h2c) covers the fourth pair: 1..3 parallel HTTP/1.1 client connections, each a keep-alive sequence of 1..4 requests (Content-Length / chunked bodies, 0..2 trailer fields) to an h2c mock backend with generated SETTINGS (initial window 0 / 1 / 9 / 16383 / 65535 / 2^31-1, max frame size), credit schedules that end in automatic replenishment, response DATA of generated sizes with padding, END_STREAM on the last DATA / trailers / an empty DATA frame / HEADERS; exact bodies both ways, clean message ends, response k for request k, the backend's windows and frame size respected, no byte-less period of 2.5 s. Trailers count as a framing hazard only (their fidelity is C13's subject); kernel segmentation and epoll wake-up order are shaped, not owned; splice off; known findings excluded by construction with strict reproducers: three HTTP/2 shapes under C14 (frame storm, head-of-line stall when both peers withhold credit, streams attached before the backend's SETTINGS), the session loop's iteration budget on bodies of a million chunks, and two HTTP/1.1 -> h2c shapes (a length-complete response whose END_STREAM comes on a later frame; request trailers split across reads).",
             "DESIGN.md §4 C01"),
     "C02": ("fault_enumeration",
             "generated fault-scenario search in a wire lab (real worker, scripted HTTP/1.1 and HTTP/2 clients, programmable HTTP/1.1 and h2c mock backends) against the admissible answer set per injected cause",
